@@ -29,6 +29,11 @@ CHECKS['C18'] = dict(engine='CH', category='model_checking', design='4/C18',
    text='Per node kind (26 classes): for every combination of slot presence, list length, copy()/deepcopy and every single-attribute mutation of the copy discovered by reflection (symbolic index), the copy equals and prints like the original, shares no mutable object with it, has the same attribute set, and the mutation leaves the original\'s text and tree unchanged; equality is reflexive/symmetric/consistent with printing and with !=; Result hash is defined and consistent; QueryPlan/PlanStep equality returns True for equal and False for different plans.',
    note='Trusted: CrossHair path bookkeeping (inputs are finite-domain; each leaf is the real code run natively under NoTracing once all inputs are concrete on the path). One node kind per step; nested kinds by induction (deepcopy recurses uniformly). List lengths <= 2/3.')
 
+CHECKS['C12'] = dict(engine='CH', category='model_checking', design='4/C12',
+   technique='CrossHair (z3) path-splitting over the placeholder bitmask of each statement skeleton and the supplied-value count; leaves run the real prepare_steps/execute_steps and compare with the plan of the inlined text',
+   text='For 16 statement skeletons covering the positions named by the property (select list, WHERE, ON, CASE operand, function FROM-argument, IN, BETWEEN, subqueries on both join sides, FROM subquery, CTE, GROUP/HAVING, UNION, INSERT values/select, UPDATE SET+WHERE, DELETE, model join, WHERE subquery) and every subset of slots turned into `?`: prepare reports exactly n parameters, execute(v1..vn) yields exactly the plan of the text with v_i inlined at the i-th `?` in textual order, no placeholder is left, and n-1 / n+1 values raise PlanningException. Unit: fill_query_params consumes values front to back without touching the caller list.',
+   note='Trusted: CrossHair path bookkeeping; parametricity of the planner in placeholder values (distinct concrete values per leaf); skeleton family in harness/c12lib.py; C13 for uniform treatment of every node kind by the walker.')
+
 NA_PENDING = {}
 
 
